@@ -734,6 +734,9 @@ def judge_format(chk, job, res, out):
         return False
     if k == "err":
         if res["cls"].startswith("OTHER"):
+            if res["cls"] == "OTHER:ValueError" and job["op"] != "fobj" and max_digit_run(s) > 4300:
+                chk.count("fixed-form:K-C12-1")   # candidate fix: catch -> Failure(ValueError)
+                return False
             out["violations"].append(("the failure is not one of the typed failures", job, res))
             return False
         return True
